@@ -1248,6 +1248,9 @@ def mixed_oracle(run, probes):
 
 
 def short_cls(c):
+    if " +embedded" in c:
+        head, tail = c.split(" +embedded", 1)
+        return short_cls(head) + " (+embedded" + tail + ")"
     parts = c.split(".")
     ver = [x for x in parts if x in ("v20", "v21")]
     return (ver[0] + "." if ver else "") + parts[-1]
